@@ -457,15 +457,88 @@ theorem rewriteQuery_keeps_original (unesc : Str → Option Str) (orig : Values)
     rw [(rewriteQuery_keys unesc orig newURI p q pairs hsp hpq).2 k]
     exact List.prefix_append _ _
 
-/-- **Bug-like behaviour, stated**: when the target's query does not parse (a `;` or a bad
-    `%`-escape — both can come from the client-controlled part of the path via `$1`), the Go code
-    returns `"", "", nil`: the rewritten path AND the original query are silently dropped and the
-    request goes on with an empty path (the upstream then receives `/`). -/
-theorem rewriteQuery_parse_error (unesc : Str → Option Str) (orig : Values) (newURI p q : Str)
-    (pairs : List (Str × Str))
-    (hs : splitFirst '?' newURI = (p, some q)) (hp : parseQuery unesc q = (pairs, true)) :
-    rewriteQuery unesc orig newURI = ([], []) := by
+/-- `splitPathAndQuery` reports an error exactly when the replaced string has a query part that
+    `url.ParseQuery` rejects (a `;` or a bad `%`-escape — both can come from the client-controlled
+    part of the path via `$1`). -/
+theorem rewriteError_iff (unesc : Str → Option Str) (newURI : Str) :
+    rewriteError unesc newURI = true ↔
+      ∃ p q pairs, splitFirst '?' newURI = (p, some q) ∧ parseQuery unesc q = (pairs, true) := by
+  unfold rewriteError
+  rcases hsp : splitFirst '?' newURI with ⟨p, _ | q⟩
+  · simp
+  · simp only
+    constructor
+    · intro h
+      exact ⟨p, q, (parseQuery unesc q).1, rfl, by rw [← h]⟩
+    · rintro ⟨p', q', pairs, heq, hp⟩
+      injection heq with _ h2
+      injection h2 with h2
+      subst h2
+      rw [hp]
+
+/-- In the error case the values returned next to the error are the empty path and no values
+    (Go: `return "", "", err`).  HISTORICAL NOTE: before the fix the error was dropped
+    (`return "", "", nil`) and these empty results were forwarded; see `rewrite_error_not_forwarded`
+    for the live behaviour. -/
+theorem rewriteQuery_of_error (unesc : Str → Option Str) (orig : Values) (newURI : Str)
+    (h : rewriteError unesc newURI = true) : rewriteQuery unesc orig newURI = ([], []) := by
+  obtain ⟨p, q, pairs, hs, hp⟩ := (rewriteError_iff unesc newURI).1 h
   simp [rewriteQuery, hs, hp]
+
+/-- **Live behaviour after the fix**: a rewrite whose target query does not parse is answered with
+    the 500 error page; nothing is forwarded. -/
+theorem rewrite_error_not_forwarded (esc : Str → Str) (unesc : Str → Option Str)
+    (escPath : Str → Str) (u : Upstream) (requestURI newURI : Str)
+    (hu : u.isRewrite = true) (h : rewriteError unesc newURI = true) :
+    upstreamRequestURI? esc unesc escPath u requestURI newURI = none := by
+  simp [upstreamRequestURI?, hu, h]
+
+/-- **forwarded_rewrite_query_parses**: whenever a rewrite upstream's request is forwarded, the
+    target's query (if any) parsed without error, the forwarded URI is exactly
+    `rewriteRequestURI …` (= the total `upstreamRequestURI`), and hence `rewriteQuery_keys` /
+    `rewriteQuery_keeps_original` apply to it. -/
+theorem forwarded_rewrite_query_parses (esc : Str → Str) (unesc : Str → Option Str)
+    (escPath : Str → Str) (u : Upstream) (requestURI newURI t : Str)
+    (hu : u.isRewrite = true)
+    (hf : upstreamRequestURI? esc unesc escPath u requestURI newURI = some t) :
+    rewriteError unesc newURI = false ∧
+    (∀ p q, splitFirst '?' newURI = (p, some q) → (parseQuery unesc q).2 = false) ∧
+    t = rewriteRequestURI esc unesc escPath requestURI newURI ∧
+    t = upstreamRequestURI esc unesc escPath u requestURI newURI := by
+  unfold upstreamRequestURI? at hf
+  rw [hu] at hf
+  simp only [if_true] at hf
+  cases he : rewriteError unesc newURI with
+  | true => rw [he] at hf; simp at hf
+  | false =>
+    rw [he] at hf
+    simp only [Bool.false_eq_true, if_false, Option.some.injEq] at hf
+    refine ⟨rfl, ?_, hf.symm, ?_⟩
+    · intro p q hs
+      unfold rewriteError at he
+      rw [hs] at he
+      exact he
+    · simp [upstreamRequestURI, hu, hf]
+
+/-- a plain upstream's request is always forwarded, with `RequestURI` untouched -/
+theorem plain_forwarded (esc : Str → Str) (unesc : Str → Option Str) (escPath : Str → Str)
+    (u : Upstream) (requestURI newURI : Str) (hu : u.isRewrite = false) :
+    upstreamRequestURI? esc unesc escPath u requestURI newURI = some requestURI := by
+  simp [upstreamRequestURI?, hu]
+
+/-- whenever something is forwarded it is what the total function `upstreamRequestURI` says, so
+    `target_verbatim`, `target_rewritten`, `routed_target_verbatim` describe every forwarded
+    request -/
+theorem forwarded_eq (esc : Str → Str) (unesc : Str → Option Str) (escPath : Str → Str)
+    (u : Upstream) (requestURI newURI t : Str)
+    (hf : upstreamRequestURI? esc unesc escPath u requestURI newURI = some t) :
+    t = upstreamRequestURI esc unesc escPath u requestURI newURI := by
+  cases hu : u.isRewrite with
+  | true => exact (forwarded_rewrite_query_parses esc unesc escPath u requestURI newURI t hu hf).2.2.2
+  | false =>
+    rw [plain_forwarded esc unesc escPath u requestURI newURI hu] at hf
+    injection hf with hf
+    simp [upstreamRequestURI, hu, hf]
 
 /-- the merged values keep Go's map invariant (distinct keys) -/
 theorem rewriteQuery_nodup_keys (unesc : Str → Option Str) (orig : Values) (newURI : Str)
@@ -571,10 +644,16 @@ example : rewriteRequestURI queryEscape queryUnescape urlEscapedPath
 example : splitFirst '?' "/y?k=v&a=9".toList = ("/y".toList, some "k=v&a=9".toList) ∧
     parseQuery queryUnescape "k=v&a=9".toList
       = ([("k".toList, "v".toList), ("a".toList, "9".toList)], false) := by decide
--- the parse-error behaviour: `;` smuggled in through `$1`
-example : rewriteRequestURI queryEscape queryUnescape urlEscapedPath
-      "/rw/a;b?keep=1".toList "/y?k=a;b".toList = [] := by decide
-example : outgoingTarget "http".toList "/".toList [] = "/".toList := by decide
+-- the parse-error behaviour: `;` smuggled in through `$1` ⇒ 500, not forwarded
+example : rewriteError queryUnescape "/y?k=a;b".toList = true := by decide
+example : rewriteError queryUnescape "/y?k=%zz".toList = true := by decide
+example : rewriteError queryUnescape "/y?k=a%3Bb".toList = false := by decide
+example : upstreamRequestURI? queryEscape queryUnescape urlEscapedPath exRw2
+      "/rw/a;b?keep=1".toList "/y?k=a;b".toList = none := by decide
+example : upstreamRequestURI? queryEscape queryUnescape urlEscapedPath exRw2
+      "/rw/v?b=1&a=0&a=3".toList "/y?k=v&a=9".toList = some "/y?a=0&a=3&a=9&b=1&k=v".toList := by decide
+example : upstreamRequestURI? queryEscape queryUnescape urlEscapedPath exA
+      "/a/x?b=1".toList [] = some "/a/x?b=1".toList := by decide
 -- director: verbatim
 example : outgoingTarget "http".toList "/".toList "/a%2Fb/c?x=%20&y".toList
     = "/a%2Fb/c?x=%20&y".toList := by decide
